@@ -220,12 +220,16 @@ func (m *Meta) Equals(other *Meta) bool {
 }
 
 func (m *Meta) String() string {
-	sort.Strings(m.Keys)
+	// sort a copy: the Meta can be shared by concurrent readers
+	keys := make([]string, len(m.Keys))
+	copy(keys, m.Keys)
+	sort.Strings(keys)
 
 	buf := strings.Builder{}
 	buf.WriteString("{")
 
-	for key, node := range m.Values {
+	for _, key := range keys {
+		node := m.Values[key]
 		buf.WriteString("\n\t")
 		buf.WriteString(key)
 		buf.WriteString(": ")
